@@ -24,6 +24,7 @@ indices) is decided per run by the harness oracle over every pointer of every ge
 -/
 import SpecModel.Codec.SideConditions
 import SpecModel.Codec.Lookup
+import SpecModel.Codec.LookupMore
 import SpecModel.Props.C06
 
 namespace SpecModel.Props.C15
@@ -129,6 +130,40 @@ theorem lookup_agrees_on_schema_encodings {j₀ : Json} {ms : List (String × Js
       ["Extensions", "ExtraProps", "SchemaProps", "SwaggerSchemaProps"].all ki.lookupChain.contains = true := by decide
   obtain ⟨ki, h1, h2⟩ := hk
   exact norm_lookup_schema C06.tables_ok h1 h2 keywords_not_numerals h hm hne hns hcanon
+
+/-- **on actual encodings, response and security scheme** -/
+theorem lookup_agrees_on_response_encodings {j₀ : Json} {ms : List (String × Json)} (h : norm "response" j₀ = .ok (.obj ms))
+    {tok : String} {v : Json} (hm : (tok, v) ∈ ms) (hne : tok ≠ "$ref") : lookupTok "response" ms tok = some v := by
+  have hk : ∃ ki, lookupKind Gen.kinds "response" = some ki ∧
+      liveParts ki = ["ResponseProps", "Refable", "VendorExtensible"] ∧ structCovered ki = true ∧ extCovered ki = true := by
+    decide
+  obtain ⟨ki, h1, h2, h3, h4⟩ := hk
+  exact norm_lookup_response C06.tables_ok h1 h2 h3 h4 keywords_not_numerals h hm hne
+
+theorem lookup_agrees_on_securityScheme_encodings {j₀ : Json} {ms : List (String × Json)}
+    (h : norm "securityScheme" j₀ = .ok (.obj ms)) {tok : String} {v : Json} (hm : (tok, v) ∈ ms) (hne : tok ≠ "$ref") :
+    lookupTok "securityScheme" ms tok = some v := by
+  have hk : ∃ ki, lookupKind Gen.kinds "securityScheme" = some ki ∧
+      liveParts ki = ["SecuritySchemeProps", "VendorExtensible"] ∧ structCovered ki = true ∧ extCovered ki = true := by
+    decide
+  obtain ⟨ki, h1, h2, h3, h4⟩ := hk
+  exact norm_lookup_securityScheme C06.tables_ok h1 h2 h3 h4 keywords_not_numerals h hm hne
+
+/-- **on actual encodings, responses and paths**: every member, without exception -/
+theorem lookup_agrees_on_responses_encodings {j₀ : Json} {ms : List (String × Json)}
+    (h : norm "responses" j₀ = .ok (.obj ms)) {tok : String} {v : Json} (hm : (tok, v) ∈ ms) :
+    lookupTok "responses" ms tok = some v := by
+  have hk : ∃ ki, lookupKind Gen.kinds "responses" = some ki ∧
+      ["Default", "Extensions", "StatusCodeResponses"].all ki.lookupChain.contains = true := by decide
+  obtain ⟨ki, h1, h2⟩ := hk
+  exact norm_lookup_responses C06.tables_ok h1 h2 h hm
+
+theorem lookup_agrees_on_paths_encodings {j₀ : Json} {ms : List (String × Json)} (h : norm "paths" j₀ = .ok (.obj ms))
+    {tok : String} {v : Json} (hm : (tok, v) ∈ ms) : lookupTok "paths" ms tok = some v := by
+  have hk : ∃ ki, lookupKind Gen.kinds "paths" = some ki ∧ ["Paths", "Extensions"].all ki.lookupChain.contains = true := by
+    decide
+  obtain ⟨ki, h1, h2⟩ := hk
+  exact norm_lookup_paths C06.tables_ok h1 h2 h hm
 
 /-- non-vacuity: the model on a small operation, a schema with an unknown keyword, and a responses object -/
 example : lookupTok "operation" [("operationId", .str "op"), ("x-a", .num 1)] "operationId" = some (.str "op") := by rfl
